@@ -447,3 +447,68 @@ pub fn too_new(rng: &mut Rng, lv: u8) -> Vec<(String, &'static str)> {
     let (_, t, w) = *rng.pick(&all);
     vec![(t.to_string(), w)]
 }
+
+/// Words that are reserved at some level / in some dialect and identifiers elsewhere (and a few words that are
+/// reserved everywhere), each used in every syntactic position of a name. Returns (program, expectation, why):
+/// "accept" where the word is an ordinary identifier at level `lv` (1 = 5.1 … 5 = 5.5), "reject!" (certain: the manuals reserve
+/// the word, the 5.5 reference is not asked) where it is reserved, "maybe" where only the 5.5 reference can tell.
+pub fn soft_word_cases(lv: u8) -> Vec<(String, &'static str, String)> {
+    // (word, status at this level)
+    let words: Vec<(&str, &'static str)> = vec![
+        ("goto", if lv == 1 { "accept" } else { "reject!" }), // reserved from 5.2 on
+        ("global", if lv <= 4 { "accept" } else { "maybe" }), // 5.5 declarations; a name before
+        ("const", "accept"),                                  // attribute name / dialect word: contextual
+        ("close", "accept"),
+        ("continue", "accept"), // dialect word (non-standard `continue`): a name in every PUC-Rio version
+        ("end", "reject!"),
+        ("nil", "reject!"),
+        ("while", "reject!"),
+        ("local", "reject!"),
+        ("not", "reject!"),
+    ];
+    let mut out = Vec::new();
+    for (w, status) in words {
+        let mut t: Vec<(String, &str)> = vec![
+            (format!("local {w} = 1\n"), "local name"),
+            (format!("local a, {w} = 1, 2\n"), "second local name"),
+            (format!("{w} = 5\n"), "global assignment"),
+            (format!("x, {w} = 1, 2\n"), "assignment target"),
+            (format!("local t = {{ {w} = 1 }}\n"), "field key in a constructor"),
+            (format!("local t = {{ 1, {w} = 1; 2 }}\n"), "field key after other fields"),
+            (format!("local t = {{}}\nlocal x = t.{w}\n"), "t.name"),
+            (format!("local t = {{}}\nt.{w} = 1\n"), "t.name as assignment target"),
+            (format!("local t = {{}}\nlocal x = t.a.{w}.b\n"), "t.a.name.b"),
+            (format!("local nav = {{}}\nfunction nav.{w}() end\n"), "function t.name"),
+            (format!("local nav = {{}}\nfunction nav:{w}() end\nnav:{w}(3)\n"), "method name"),
+            (format!("local nav = {{}}\nlocal y = nav:{w}(3):{w} \"s\"\n"), "method call chain"),
+            (format!("for {w} = 1, 3 do end\n"), "numeric loop variable"),
+            (format!("for {w} in pairs({{}}) do end\n"), "generic loop variable"),
+            (format!("for k, {w} in pairs({{}}) do end\n"), "second generic loop variable"),
+            (format!("local function f({w}) return {w} end\n"), "parameter"),
+            (format!("local function f(a, {w}, ...) return a end\n"), "middle parameter"),
+            (format!("function {w}() end\n"), "global function name"),
+            (format!("local function {w}() end\n"), "local function name"),
+            (format!("local x = {w}\n"), "name in an expression"),
+            (format!("local x = {w} + {w}.y\n"), "name as operand"),
+            (format!("{w}()\n"), "call statement"),
+            (format!("{w}.x = 1\n"), "statement starting with the name"),
+            (format!("{w}[1] = 2\n"), "indexed assignment statement"),
+            (format!("local x = function({w}) end\n"), "closure parameter"),
+            (format!("return {w}\n"), "return value"),
+        ];
+        if lv >= 2 {
+            t.push((format!("do\n  goto {w}\n  ::{w}::\nend\n"), "label name"));
+        }
+        if lv >= 4 {
+            t.push((format!("local {w} <const> = 1\n"), "local name with attribute"));
+            t.push((format!("local a <const>, {w} <close> = 1, nil\n"), "second attributed name"));
+        }
+        for (text, pos) in t {
+            if w == "nil" && (pos == "name in an expression" || pos == "return value") {
+                continue; // `nil` is an expression
+            }
+            out.push((text, status, format!("'{w}' as {pos}")));
+        }
+    }
+    out
+}
